@@ -337,7 +337,10 @@ CHECKS["C15"] = dict(
          "ApplyConfChange, gates, snapshots carrying a ConfState, restarts), and the refinement handleC -> L1C -> RSC is PROVED (RHC.simC, RHC.handleC_in_StepC, RHC.runC_covered), so RHC.runC_safe states election safety, log matching, leader "
          "completeness and state-machine safety for every run of that very function under any schedule incl. membership changes (one input excluded: a snapshot ignored for "
          "'not in the ConfState' by a node whose commit index is still 0); the paged / lazy / batch membership profiles are judged by the safety predicates and the CF / GT / HP lines "
-         "(config after each applied conf change, proposal gate, campaign gate); joint configurations entered through the log (EnterJoint/LeaveJoint/AutoLeave) are not in the protocol model; "
+         "(config after each applied conf change, proposal gate, campaign gate); joint configurations entered and left through the log (EnterJoint / LeaveJoint / AutoLeave, every ConfChangeV2 shape) are in the protocol model RSJ (RSJ.C15_joint_holds) "
+         "and in the executable joint handler RHJ.handleJ, whose refinement handleJ -> L1J -> RSJ is PROVED (RHJ.simJ, RHJ.handleJ_in_StepJ, RHJ.runJ_safe: the four safety properties for every run "
+         "of that function) and which is compared with RawNode on EVERY event of the member-joint / member-joint-partition schedules (suite member-joint-lockstep: ConfChangeV2 of every shape inside "
+         "lossy, partitioned, restarting schedules; projection, applied index, all five tracker fields, the leader's pendingConfIndex, every message); "
          "ReadIndex and leader transfer are outside both. Trusted: Lean kernel (propext, Classical.choice, Quot.sound), the Lean interpreter running the driver, the Go "
          "harness's projection/index shift/event classification, MemoryStorage as the persistence layer (the WAL is C16's subject). Flow control is abstracted "
          "(any true log slice is accepted), timers are not modelled (a tick is classified by its effect).",
